@@ -294,9 +294,12 @@ def run(res, tier, seed):
             reader_hif_records_without_incidence=sum(1 for c in hif if {r["edge"] for r in c["doc"]["edges"]} - {r["edge"] for r in c["doc"]["incidences"]}))
     res.coverage["reader_hgr_fmt_histogram"] = {f: sum(1 for c in hgr if fmt_of(c) == f) for f in ("absent", "0", "1", "10", "11")}
     pick = max(range(len(cases)), key=lambda i: (cases[i]["kind"] == "hgr", len(cases[i].get("lines", []))))
-    res.sample({"reader": "hgr", "file_text": info[pick]["text"], "built_edges": cases[pick]["st"]["edges"]})
+    # the shared Result already holds the round-trip samples: raise the cap for the two reader samples
+    res.sample({"reader": "hgr", "file_text": info[pick]["text"], "built_edges": cases[pick]["st"]["edges"]},
+               cap=len(res.coverage["samples"]) + 1)
     pick = max(range(len(cases)), key=lambda i: (cases[i]["kind"] == "hif", len(cases[i].get("doc", {}).get("incidences", []))))
-    res.sample({"reader": "hif", "document": info[pick]["document"], "built": cases[pick]["built"]})
+    res.sample({"reader": "hif", "document": info[pick]["document"], "built": cases[pick]["built"]},
+               cap=len(res.coverage["samples"]) + 1)
     res.assume(".hgr: header written with single spaces, other token lines with 1-2 spaces; nodes 1..N; every line of a "
                "hyperedge lists distinct nodes; weighted files never list the same hyperedge twice (not covered); only "
                "hyperedges and weights are compared (isolated nodes of the header are not promised)",
